@@ -94,7 +94,12 @@ def compare_ast(l_ast, r_ast):
 
             if isinstance(left_field, ast.AST) or isinstance(right_field, ast.AST):
                 compare_ast(left_field, right_field)
-            elif left_field != right_field:
+            elif left_field != right_field or (
+                field in ('value', 'n')
+                and isinstance(left_field, (bool, int, float, complex))
+                and type(left_field) is not type(right_field)
+            ):
+                # The constants 1, 1.0 and True compare equal, but are not the same constant
                 raise CompareError(
                     l_ast,
                     r_ast,
